@@ -1163,29 +1163,36 @@ func fdsDirect(seed uint64, tier string, args []string, w *bufio.Writer) {
 			}
 		})
 	}
-	// Close after the IO context was closed first, with a write in flight
-	d.trial("close-after-io-close", "conn.Close after IO.Close with a deferred write", func() {
-		io2, err := sonic.NewIO()
-		if err != nil {
-			return
-		}
-		c, err := sonic.Dial(io2, "tcp", fdsLn.Addr().String())
-		if err != nil {
+	// Close after the IO context was closed first, with operations in flight (epoll_ctl fails with EBADF)
+	for _, variant := range []string{"write", "read", "both"} {
+		variant := variant
+		d.trial("close-after-io-close."+variant, "conn.Close after IO.Close with a deferred "+variant, func() {
+			io2, err := sonic.NewIO()
+			if err != nil {
+				return
+			}
+			c, err := sonic.Dial(io2, "tcp", fdsLn.Addr().String())
+			if err != nil {
+				io2.Close()
+				return
+			}
+			p := fdsAccept(2 * time.Second)
+			io2.Dispatched = sonic.MaxCallbackDispatch
+			if variant != "read" {
+				c.AsyncWrite([]byte("x"), func(error, int) {})
+			}
+			if variant != "write" {
+				c.AsyncRead(make([]byte, 1), func(error, int) {})
+			}
+			io2.Dispatched = 0
 			io2.Close()
-			return
-		}
-		p := fdsAccept(2 * time.Second)
-		io2.Dispatched = sonic.MaxCallbackDispatch
-		c.AsyncWrite([]byte("x"), func(error, int) {})
-		c.AsyncRead(make([]byte, 1), func(error, int) {})
-		io2.Dispatched = 0
-		io2.Close()
-		_ = c.Close()
-		_ = c.Close()
-		if p != nil {
-			p.Close()
-		}
-	})
+			_ = c.Close()
+			_ = c.Close()
+			if p != nil {
+				p.Close()
+			}
+		})
+	}
 
 	// 6. garbage collection with operations deferred: the registry keeps the owner alive, the completion arrives
 	for _, kind := range []string{"conn-read", "conn-write", "conn-both", "adapter-read", "adapter-both", "packet-read", "listener-accept"} {
@@ -1360,7 +1367,6 @@ func fdsGcTrial(d *fdsDirectState, ioc *sonic.IO, kind string, r *rng) {
 		d.fail("gc."+kind, "setup: %v", err)
 		return
 	}
-	// a write usually completes at once unless deferred; make sure the write side is really registered where asked
 	for i := 0; i < 3; i++ {
 		runtime.GC()
 		time.Sleep(time.Millisecond)
@@ -1370,6 +1376,31 @@ func fdsGcTrial(d *fdsDirectState, ioc *sonic.IO, kind string, r *rng) {
 	}
 	if finalized {
 		d.fail("gc.collected-in-flight", "%s: state captured by the pending callback was finalised while the operation was in flight", kind)
+	}
+	if want == 2 {
+		// the write completes at the first poll; the read stays in flight (the peer has not written yet): the object must
+		// stay registered although one of its directions just completed
+		for i := 0; i < 50 && completed < 1; i++ {
+			_ = ioc.RunOneFor(2 * time.Millisecond)
+		}
+		if completed == 1 {
+			if !ioc.VerifRegistered(fd) {
+				d.fail("gc.unregistered-in-flight", "%s: one direction completed and the IO registry dropped the slot of descriptor %d while the other direction is still in flight", kind, fd)
+				// without the registry the collector may free the object the kernel still points to: stop here
+				_ = syscall.Close(fd)
+				if c, ok := peer.(io.Closer); ok {
+					c.Close()
+				}
+				return
+			}
+			for i := 0; i < 3; i++ {
+				runtime.GC()
+				time.Sleep(time.Millisecond)
+			}
+			if finalized {
+				d.fail("gc.collected-in-flight", "%s: finalised while the read was still in flight", kind)
+			}
+		}
 	}
 	// let the peer act
 	var extra []io.Closer
